@@ -272,7 +272,7 @@ def run(pid, tier, seed, replay):
     if not scripts:
         raise vlib.Inconclusive("no scripts exported from the forced-schedule model")
     total_scripts = len(scripts)
-    cap = 3500 if quick else 30000
+    cap = 3500 if quick else 20000
     exhaustive = True
     if len(scripts) > cap:
         # always keep the small complete configuration (no pre-existing deployment), sample the rest
@@ -339,7 +339,7 @@ def run(pid, tier, seed, replay):
                 fh.write(json.dumps(s) + "\n")
         rfuts.append((op, atomic, pool.submit(run_vh, vh, ["replay", "-v", "-in", ip, "-out", op], 2400)))
     # free-running executions
-    nfree_p, nfree_n = (6, 300) if quick else (12, 2500)
+    nfree_p, nfree_n = (6, 300) if quick else (12, 2000)
     ffuts = []
     for k in range(nfree_p):
         op = os.path.join(work, "f%d.ndjson" % k)
